@@ -1,5 +1,6 @@
 import ScVerif.Base.Line
 import ScVerif.C14.Composite
+import ScVerif.C14.Masks
 /-!
 Driver side of the composed-register model (Composite.lean) run as a SIMULATOR: the harness sends the
 requests it makes to a server whose register is composed of collection items (openclosepb Positions),
@@ -85,6 +86,14 @@ def chandle (c : CSim) (toks : List String) : Option (CSim × String) :=
   | ["copen", m, uo] => do
     let r := cstep (simCfg c.facts) true c.srv (.pull "" (← parseMask? m) (← parseBool? uo))
     pure ({ c with srv := r.1 }, gained c.srv.streams r.1.streams)
+  | ["rmprefix", pfx, mask] =>
+    -- masks.RemovePrefix: `nil`, `-` (a mask without paths) or comma-separated dotted paths
+    let m : Option (List Path) :=
+      if mask = "nil" then none else if mask = "-" then some [] else some ((mask.splitOn ",").map (·.splitOn "."))
+    let out := match removePrefix pfx m with
+      | none => "nil"
+      | some ps => if ps.isEmpty then "-" else ",".intercalate (ps.map fun p => ".".intercalate p)
+    some (c, out)
   | ["cclose", i] => do
     let r := cstep (simCfg c.facts) true c.srv (.cancel (← parseNat? i))
     pure ({ c with srv := r.1 }, "ok")
